@@ -187,7 +187,9 @@ func (h *Handler) validateNoUsages(ctx context.Context, u *unstructured.Unstruct
 
 func inUseMessage(usages *v1beta1.UsageList) string {
 	first := usages.Items[0]
-	if first.Spec.By != nil {
+	// spec.by.resourceRef is nil until the Usage controller has resolved
+	// spec.by.resourceSelector.
+	if first.Spec.By != nil && first.Spec.By.ResourceRef != nil {
 		return fmt.Sprintf("This resource is in-use by %d Usage(s), including the Usage %q by resource %s/%s.", len(usages.Items), first.Name, first.Spec.By.Kind, first.Spec.By.ResourceRef.Name)
 	}
 	if first.Spec.Reason != nil {
